@@ -73,6 +73,8 @@ DEFAULT_CFG = {
     "c_drop_first": 0,        # scripted fault: the first N client datagrams are lost
     "blackout_from": None,    # scripted fault: every datagram sent at/after this time (s after start) is lost
     "blackout_until": None,   # ... and before this time (None = forever)
+    "c_cid_limit": None,      # active_connection_id_limit advertised by the client / the server (default 8)
+    "s_cid_limit": None,
     "rebind_at": None,        # seconds after start: the client's source address changes (scripted NAT rebinding)
     "blackouts": None,        # [(from, until), ...] seconds after start: everything sent in a window is lost
     "c_cert": None,           # name of a vlib.certs chain the CLIENT presents on CertificateRequest
@@ -365,6 +367,9 @@ class NetSim:
         else:
             c.conn = QuicConnection(configuration=self.c_cfg)
         self._apply_stream_limits(c.conn, self.cfg["c_max_streams"])
+        if self.cfg.get("c_cid_limit"):
+            # configuration only: the active_connection_id_limit this endpoint advertises (no public knob)
+            c.conn._local_active_connection_id_limit = self.cfg["c_cid_limit"]
         def first():
             # connect() and the application's "pre" operations (0-RTT writes issued before the
             # first transmit) happen before the first datagrams_to_send(), as a real caller
@@ -613,6 +618,8 @@ class NetSim:
                                 original_destination_connection_id=odcid,
                                 retry_source_connection_id=retry_scid, **kw)
         self._apply_stream_limits(s.conn, self.cfg["s_max_streams"])
+        if self.cfg.get("s_cid_limit"):
+            s.conn._local_active_connection_id_limit = self.cfg["s_cid_limit"]
         self.log("server_created", d.id)
         return False
 
